@@ -55,7 +55,9 @@ always be joined) rest on.  Also: the PLAY handler creates the write queue only 
 playing yet (a second PLAY must not replace the running writer), destroys it on error under the same
 condition, the session destroys it before `OnSessionClose`, `Client.doClose` closes the socket also when
 the reader has already gone, and `Client.reset()` (redirect, switch to TCP) runs `doClose()` BEFORE it resets
-`state` (`doClose` looks at `state` to decide whether a writer and transport routines have to be stopped). -/
+`state` (`doClose` looks at `state` to decide whether a writer and transport routines have to be stopped).
+Sockets on retry / fallback paths: wherever a second listener of a pair fails to open (client port pairs —
+both branches —, multicast pairs, the RTCP / TCP listener in `Server.Start`) the first one is closed again. -/
 theorem code_shape_channels :
     Life.clientReaderBareSends = 0 ∧ Life.clientReaderSends = Life.clientReaderSendsWithTerminate ∧
     Life.serverReaderBareSends = 0 ∧ Life.serverReaderSends = Life.serverReaderSendsWithCtx ∧
@@ -63,7 +65,10 @@ theorem code_shape_channels :
     0 < Life.clientReaderSends ∧ 0 < Life.serverReaderSends ∧
     Life.playCreatesWriterOnce = true ∧ Life.playDestroysWriterOnError = true ∧
     Life.sessionDestroysWriterOnClose = true ∧ Life.clientDoCloseClosesSocketAnyway = true ∧
-    Life.clientResetClosesFirst = true ∧ Life.clientSwitchResetsBeforeResetup = true := by decide
+    Life.clientResetClosesFirst = true ∧ Life.clientSwitchResetsBeforeResetup = true ∧
+    Life.clientPairClosesFirstOnSecondFailure = Life.clientPairSecondListeners ∧ 0 < Life.clientPairSecondListeners ∧
+    Life.multicastPairClosesFirstOnSecondFailure = true ∧ Life.serverStartClosesRTPOnRTCPFailure = true ∧
+    Life.serverStartClosesUDPOnTCPFailure = true := by decide
 
 /-! ## Accepted traces are balanced and ordered -/
 
